@@ -169,6 +169,9 @@ impl Agg {
             bump(&mut self.inconclusive, k);
         }
         for n in &rec.notes {
+            if n.starts_with("filter:") {
+                continue;
+            }
             if let Some(inv) = n.strip_prefix("inv:") {
                 self.inv_seen.insert(inv.to_string());
                 continue;
